@@ -49,7 +49,7 @@ def elem_kinds(g):
     }
 
 
-NULL_OK = {"packed", "wide", "char", "wchar", "enum", "flag", "leb", "intstruct"}
+NULL_OK = {"packed", "wide", "char", "wchar", "enum", "flag", "leb", "intstruct", "ptr"}
 FORMS = ["fixed0", "fixed1", "fixedk", "expr", "exprneg", "exprconst", "exprsizeof", "exprenum", "null", "eof"]
 
 
@@ -301,6 +301,9 @@ def shadowing(ctx):
     for compiled in (True, False):
         for text, data, want in [
             ("#define n 3\nstruct T { uint8 n; uint8 a[n]; uint8 t; };", bytes([1, 9, 8, 7, 6]), ([9], 8)),
+            # ... also when the field holds 0
+            ("#define n 3\nstruct T { uint8 n; uint8 a[n]; uint8 t; };", bytes([0, 9, 8, 7, 6]), ([], 9)),
+            ("#define n 3\nstruct T { uint8 n; uint8 a[n * 2 + 1]; uint8 t; };", bytes([0, 9, 8, 7, 6]), ([9], 8)),
             ("#define n 3\nstruct T { uint8 n; uint8 a[n + 1]; uint8 t; };", bytes([1, 9, 8, 7, 6, 5]), ([9, 8], 7)),
             ("#define k 2\nstruct T { uint8 n; uint8 a[n + k]; uint8 t; };", bytes([1, 9, 8, 7, 6, 5]), ([9, 8, 7], 6)),
             # the operand of sizeof() names a type even if a preceding field has the same name (static size kept)
